@@ -101,6 +101,7 @@ fn main() {
             let f2 = fmtchecks::format_text(&f1, &cfg);
             let f3 = fmtchecks::format_text(&f2, &cfg);
             println!("--- pass 1\n{f1}--- pass 2\n{f2}--- pass 3 same as 2: {}\n--- check: {:?}", f3 == f2, fmtchecks::check_format(&text, &cfg));
+            println!("--- imports before: {:?}\n--- imports after: {:?}", fmtchecks::extract(&text).uses, fmtchecks::extract(&f1).uses);
         }
         "debug-gen" => {
             let mut rng = rng::Rng::derive(seed, &[1, args[2].parse::<u64>().unwrap()]);
